@@ -61,15 +61,15 @@ Print Assumptions C01_validation_checks_hash.
 Print Assumptions C01_mismatch_reported_failed.
 Print Assumptions C01_validation_delivers_nothing.
 
-(* Outside D the full statement is false of the faithful model: the stale
-   waiter.  X(v1) is held for predecessor Q; X(v2) arrives, validates over it
-   and is not parked (the path is already waiting); Q arrives and releases the
-   v1 OBJECT: the final file holds v2's bytes under v1's logged hash. *)
-(* stale_end is the state after the ordinary history stale_ops (Proofs/StageP.v) *)
-Theorem C01_stale_waiter_refuted :
-  exists t body,
-    In (t, body) (finals stale_end) /\
-    (exists r, In r (rlog stale_end) /\ rec_target r = t) /\
-    (forall r', In r' (rlog stale_end) -> rec_target r' = t -> toyH body <> l_hash r').
-Proof. exact stale_waiter_refuted. Qed.
-Print Assumptions C01_stale_waiter_refuted.
+(* Outside D (several versions of one name) the invariant is not proved. The
+   history stale_ops (Proofs/StageP.v) - version 1 validated and held for a
+   missing predecessor, version 2 arrives and validates, the predecessor arrives -
+   used to deliver version 2's bytes under version 1's hash (former finding
+   C01-F1); after the fix (the newer object replaces the waiter, finalisation
+   checks the hash of the cache entry) every delivered file of that history
+   carries the hash of its own log record *)
+Theorem C01_stale_waiter_repaired :
+  forall t body, In (t, body) (finals stale_end) ->
+    exists r, In r (rlog stale_end) /\ rec_target r = t /\ toyH body = l_hash r.
+Proof. exact stale_waiter_repaired. Qed.
+Print Assumptions C01_stale_waiter_repaired.
